@@ -403,6 +403,32 @@ var Injectors = []injector{
 		d.Body = nb
 		return &Fault{Class: "undefined:type-in-schema", Msg: []string{"not found"}, DirID: d.ID, Token: "@undefinedType"}
 	}},
+	{"undefined:type-in-path-schema", func(r Rnd, tree *[]*Dir, ids *int) *Fault {
+		// a path variable described as one of two types that do not exist: the Path schema passes the checks made on
+		// the directive itself and fails when the path variables of the interaction are assembled (possibly from the Path
+		// directives of several places) - the error belongs to the Path directive that holds the reference
+		cands, _ := collect(*tree, func(d, p *Dir) bool {
+			return d.Kw == "Path" && d.BodyKind == "schema" && len(d.Body) >= 3 && d.Body[0] == "{"
+		})
+		if len(cands) == 0 {
+			return nil
+		}
+		d := pick(r, cands)
+		i := 1 + r.Intn(len(d.Body)-2)
+		line := d.Body[i]
+		k := strings.Index(line, "\": ")
+		if k < 0 {
+			return nil
+		}
+		nl := line[:k+3] + "@undefinedType | @undefinedOther"
+		if i < len(d.Body)-2 {
+			nl += ","
+		}
+		nb := append([]string(nil), d.Body...)
+		nb[i] = nl
+		d.Body = nb
+		return &Fault{Class: "undefined:type-in-path-schema", Msg: []string{"not found"}, DirID: d.ID}
+	}},
 	{"undefined:tag", func(r Rnd, tree *[]*Dir, ids *int) *Fault {
 		cands, _ := collect(*tree, func(d, p *Dir) bool {
 			if !isMethodKw(d.Kw) && d.Kw != "Method" {
